@@ -194,6 +194,27 @@ def _configs(tier, salts):
                                 if tier == "thorough" and salt == 0 and n == 2 and len(sub) == 2 and sname in ("interior", "boundary_a") and rmode == "none":
                                     depth = 1
                                 out.append((cfg, {"depth": depth, "letters": ["x0.3", "x3"]}))
+        # the same geometry translated far from the origin (the projection routine and the solver are translation invariant, so
+        # every clause must hold there too): subsets of two and three sets, 'pull' objective, bounds on/off
+        if salt == 0 or tier == "thorough":
+            from .C15 import translate
+            for n in ((2,) if tier == "quick" else (2, 3)):
+                off = np.array([300.0, 400.0, -200.0][:n])
+                specs = set_bank(n, salt)
+                for sub in [c for L in (2, 3) for c in itertools.combinations(range(len(specs)), L)][:: (2 if tier == "quick" else 1)]:
+                    sets0 = [bank.CSet(specs[i]) for i in sub]
+                    for bnd in (False, 2):
+                        lo = np.array(BOUNDS2["lo"][:n]) if bnd else None
+                        hi = np.array(BOUNDS2["hi"][:n]) if bnd else None
+                        for sname, x00 in (("interior", np.array(INTERIOR[:n])), ("far", np.array([3.0, 2.5, -2.0][:n])),
+                                           ("boundary_a", _proj_ref(sets0, np.array([3.0, 2.5, -2.0][:n]), lo, hi))):
+                            cfg = {"prob": {"f": "lin", "A": np.eye(n).tolist(), "b": (2.0 + off).tolist(), "salt": salt},
+                                   "x0": (x00 + off).tolist(), "sets": [translate(specs[i], off) for i in sub],
+                                   "rhobeg": 0.2, "rhoend": 1e-3, "maxfun": 30, "memo": True, "record_dykstra": True,
+                                   "tag_start": "translated/" + sname, "tag_restart": "none"}
+                            if bnd:
+                                cfg["lo"], cfg["hi"] = (lo + off).tolist(), (hi + off).tolist()
+                            out.append((cfg, {"depth": 0}))
         # projection modes of the broad option bank (user Dykstra parameters, restarts, regulariser + projections)
         if salt == 0 or tier == "thorough":
             for name, cfg in cfgs.broad_cfgs(salt=salt, require=("sets",), budgets=(12, 35), reg_budgets=(8,)):
